@@ -1,6 +1,7 @@
 import LassoProofs.Lemmas.ConcArenaHist
 import LassoProofs.Lemmas.ConcArenaIds
 import LassoProofs.Lemmas.ConcArenaSolo
+import LassoProofs.Lemmas.ConcArenaSeq
 import LassoModel.Extracted
 /-
   C05 — concurrent storage integrity: exclusive regions, no torn strings, no lost block, ordering.
@@ -149,6 +150,20 @@ theorem solo_call_follows_source (s : AS) (x : Bytes) (rest : List Bytes) (hnd :
                                            buckets := stored s.buckets b x }
         | none => Matches s (run s sched) rest x (Grow.eval (envOf s x) Extracted.lockfreeGrow) :=
   solo_store s x rest hnd ht
+
+/-- Run by one thread, the machine *is* the sequential lock-free arena model on which the single-thread
+theorems about `ThreadedRodeo` (C01, C04, C08) are proved: related states (same blocks by identity,
+capacity and reserved length, same capacity, usage, limit and next identity) stay related by one call,
+and the machine logs exactly the location `LArena.store` returns (or an error when it errs). -/
+theorem solo_call_is_sequential_model (s : AS) (a : LArena) (x : Bytes) (rest : List Bytes) (hR : Rel s a)
+    (hnd : (s.buckets.map (·.id)).Nodup) (ht : s.ts = [{ pc := .idle, todo := x :: rest }]) :
+    ∃ sched : List (Nat × Bool), (∀ e ∈ sched, e = (0, false)) ∧
+      (run s sched).ts = [{ pc := .idle, todo := rest }] ∧
+      match a.store x with
+      | .ok (a', ref) => Rel (run s sched) a' ∧ (run s sched).log = (0, x, answerOf ref) :: s.log
+      | .err _ => Rel (run s sched) a ∧ (run s sched).log = (0, x, .err) :: s.log
+      | _ => False :=
+  solo_is_sequential s a x rest hR hnd ht
 
 /-! ### Ordering by synchronisation
 
